@@ -155,6 +155,13 @@ def check(mod, run, a):
     P.prove_all(run.obs, lambda ob: ob.info.get('inputs', []))
     run.prover = P
     run.obs += getattr(P, 'cut_obligations', [])
+    # covers: 'not g' must be refutable (the situation g is reachable); a proved 'not g' means the contract is vacuous there
+    covers = [ob for ob in run.obs if ob.kind == 'cover']
+    run.obs = [ob for ob in run.obs if ob.kind != 'cover']
+    run.vacuity['covers_reached'] = sum(1 for ob in covers if ob.status == 'sat')
+    run.vacuity['covers_undecided'] = sum(1 for ob in covers if ob.status not in ('sat', 'unsat'))
+    for ob in covers:
+        if ob.status == 'unsat': vacuous.append('cover %s of %s is unreachable' % (ob.name, ob.info.get('contract', ob.info.get('fn'))))
     # extra (bounded / native) checks supplied by the spec
     run.bounded = []
     extra_viol = []
@@ -221,6 +228,11 @@ def check(mod, run, a):
     n = len(run.obs); d = sum(1 for ob in run.obs if ob.status == 'unsat')
     print('%s %s: %d/%d obligations discharged, %d refuted, %d undecided, %d solver calls, %.1fs [%s]' % (
         prop, run.tier, d, n, len(sat), len(unk), len(P.records), time.time() - run.t0, status))
+    if os.environ.get('VERIF_DUMP'):
+        for i_, ob in enumerate(run.obs):
+            if os.environ['VERIF_DUMP'] in ob_fullname(prop, ob) and getattr(ob, 'smt2', None):
+                open('/tmp/dump_%d.smt2' % i_, 'w').write('; %s\n%s' % (ob_fullname(prop, ob), ob.smt2))
+                print('dumped', ob_fullname(prop, ob), '/tmp/dump_%d.smt2' % i_)
     if a.verbose:
         for ob in run.obs:
             print('  ', ob.status, ob.backend, ob_fullname(prop, ob), ob.info.get('site', ''), '%.2fs' % ob.time, getattr(ob, 'via_failed', ''))
